@@ -32,8 +32,10 @@ fn flag_waker(flag: Arc<AtomicBool>) -> Waker {
     unsafe { Waker::from_raw(RawWaker::new(Arc::into_raw(flag) as *const (), &VT)) }
 }
 
-fn bound() -> usize {
-    std::env::var("VERIF_LOOM_BOUND").ok().and_then(|v| v.parse().ok()).unwrap_or(3)
+/// preemption bound: VERIF_LOOM_BOUND (default 3); 255 or more = no bound (every schedule of the scenario)
+fn bound() -> Option<usize> {
+    let v = std::env::var("VERIF_LOOM_BOUND").ok().and_then(|v| v.parse::<usize>().ok()).unwrap_or(3);
+    if v >= 255 { None } else { Some(v) }
 }
 
 static EXECUTIONS: std::sync::atomic::AtomicUsize = std::sync::atomic::AtomicUsize::new(0);
@@ -78,7 +80,7 @@ impl<F: Future> Task<F> {
 /// C07, schedule half: two releases while a notified waiter is being re-polled on another thread.
 fn sem_absorbed_release() {
     let mut b = loom::model::Builder::new();
-    b.preemption_bound = Some(bound());
+    b.preemption_bound = bound();
     b.check(|| {
         EXECUTIONS.fetch_add(1, std::sync::atomic::Ordering::Relaxed);
         let sem = std::sync::Arc::new(Semaphore::new(2));
@@ -123,7 +125,7 @@ fn sem_absorbed_release() {
 /// lock_ops and swallow the notification of the next unlock?
 fn mutex_stale_listener() {
     let mut b = loom::model::Builder::new();
-    b.preemption_bound = Some(bound());
+    b.preemption_bound = bound();
     b.check(|| {
         EXECUTIONS.fetch_add(1, std::sync::atomic::Ordering::Relaxed);
         let m = std::sync::Arc::new(Mutex::new(0u32));
@@ -157,7 +159,7 @@ fn mutex_stale_listener() {
 /// than there are permits, and the counter is exact afterwards.
 fn sem_try_race() {
     let mut b = loom::model::Builder::new();
-    b.preemption_bound = Some(bound());
+    b.preemption_bound = bound();
     b.check(|| {
         EXECUTIONS.fetch_add(1, std::sync::atomic::Ordering::Relaxed);
         // no permit at all
@@ -194,7 +196,7 @@ fn sem_try_race() {
 /// with the read guard the downgrade produced.
 fn rw_downgrade_race() {
     let mut b = loom::model::Builder::new();
-    b.preemption_bound = Some(bound());
+    b.preemption_bound = bound();
     b.check(|| {
         EXECUTIONS.fetch_add(1, std::sync::atomic::Ordering::Relaxed);
         let l = std::sync::Arc::new(RwLock::new(0u32));
@@ -221,7 +223,7 @@ fn rw_downgrade_race() {
 /// others starved) races with f1's poll: at most one of them may obtain the guard.
 fn mutex_fair_race() {
     let mut b = loom::model::Builder::new();
-    b.preemption_bound = Some(bound());
+    b.preemption_bound = bound();
     b.check(|| {
         EXECUTIONS.fetch_add(1, std::sync::atomic::Ordering::Relaxed);
         async_lock::verif::oracle_enable(true);
@@ -275,7 +277,7 @@ fn mutex_fair_race() {
 /// waits: with no write guard alive and nothing woken left unpolled no read() may be pending.
 fn rw_reader_chain() {
     let mut b = loom::model::Builder::new();
-    b.preemption_bound = Some(bound());
+    b.preemption_bound = bound();
     b.check(|| {
         EXECUTIONS.fetch_add(1, std::sync::atomic::Ordering::Relaxed);
         let l = std::sync::Arc::new(RwLock::new(0u32));
@@ -304,11 +306,46 @@ fn rw_reader_chain() {
     });
 }
 
+/// C06 (d), schedule half: the last reader leaves while a write() / an upgrade() is polled on another thread: with no
+/// reader left and nothing woken left unpolled, the write() / upgrade() must have completed.
+fn rw_writer_vs_last_reader() {
+    let mut b = loom::model::Builder::new();
+    b.preemption_bound = bound();
+    b.check(|| {
+        EXECUTIONS.fetch_add(1, std::sync::atomic::Ordering::Relaxed);
+        // write() against the last reader
+        let l = std::sync::Arc::new(RwLock::new(0u32));
+        let r = l.try_read_arc().unwrap();
+        let t = loom::thread::spawn(move || drop(r));
+        let mut tw = Task::new(l.write_arc());
+        tw.poll();
+        t.join().unwrap();
+        tw.settle();
+        if tw.pending() {
+            panic!("LOOM-VIOLATION rw_writer_vs_last_reader: lost wake-up: no reader is left, every woken task has been polled again, a write() is pending");
+        }
+        drop(tw);
+        // upgrade() against the last reader
+        let l = std::sync::Arc::new(RwLock::new(0u32));
+        let r = l.try_read_arc().unwrap();
+        let u = l.try_upgradable_read_arc().unwrap();
+        let t = loom::thread::spawn(move || drop(r));
+        let mut tu = Task::new(async_lock::RwLockUpgradableReadGuardArc::upgrade(u));
+        tu.poll();
+        t.join().unwrap();
+        tu.settle();
+        if tu.pending() {
+            panic!("LOOM-VIOLATION rw_writer_vs_last_reader: lost wake-up: no reader is left, every woken task has been polled again, an upgrade() is pending");
+        }
+        drop(tu);
+    });
+}
+
 /// C04 / C08, schedule half: two get_or_init futures polled on two threads: the closure runs once, both obtain the same
 /// value, nobody is left pending.
 fn once_init_race() {
     let mut b = loom::model::Builder::new();
-    b.preemption_bound = Some(bound());
+    b.preemption_bound = bound();
     b.check(|| {
         EXECUTIONS.fetch_add(1, std::sync::atomic::Ordering::Relaxed);
         let cell = std::sync::Arc::new(OnceCell::<u32>::new());
@@ -346,7 +383,7 @@ fn once_init_race() {
 /// C09, schedule half: two wait() futures of a Barrier of 2 polled on two threads: both complete, exactly one leads.
 fn barrier_race() {
     let mut b = loom::model::Builder::new();
-    b.preemption_bound = Some(bound());
+    b.preemption_bound = bound();
     b.check(|| {
         EXECUTIONS.fetch_add(1, std::sync::atomic::Ordering::Relaxed);
         let bar = std::sync::Arc::new(Barrier::new(2));
@@ -383,6 +420,7 @@ fn main() {
         ("rw_downgrade_race", rw_downgrade_race),
         ("mutex_fair_race", mutex_fair_race),
         ("rw_reader_chain", rw_reader_chain),
+        ("rw_writer_vs_last_reader", rw_writer_vs_last_reader),
         ("once_init_race", once_init_race),
         ("barrier_race", barrier_race),
     ];
